@@ -10,7 +10,6 @@ import (
 	"bytes"
 	"fmt"
 	"runtime"
-	"sort"
 	"strings"
 	"sync"
 )
@@ -604,79 +603,86 @@ func runCrash(cfg CrashCfg, seed uint64, cas int) *CrashRes {
 		return res
 	}
 	res.VerfInstances = len(w.verfs)
-	it := NewCutIter(w.size, w.base, w.trace)
-	rng := NewRng(mix(seed, uint64(cas)+555))
-	lo, hi := 0, 0
-	var jobs []imageJob
-	cutNo := 0
-	prevWrites := -1
-	nw := 0
-	for {
-		e, ok := it.Step()
-		if !ok {
-			break
-		}
-		switch e.Kind {
-		case EvCall:
-			hi = int(e.Addr) + 1
-		case EvRet:
-			if w.ops[e.Addr].Stable {
-				lo = int(e.Addr) + 1
-				// the instant right after a stable acknowledgement (it may have
-				// caused no disk write at all)
-				jobs = append(jobs, imageJob{img: it.PrefixImage(), lo: lo, hi: hi, cut: it.pos, kind: "prefix", desc: fmt.Sprintf("right after the stable acknowledgement of op %d", e.Addr), want: -1})
-			}
-		case EvWrite:
-			nw++
-		}
-		if e.Kind != EvWrite && e.Kind != EvBarrier {
-			continue
-		}
-		cutNo++
-		if cfg.CutStride > 1 && cutNo%cfg.CutStride != 0 {
-			continue
-		}
-		if e.Kind == EvWrite || nw != prevWrites {
-			jobs = append(jobs, imageJob{img: it.PrefixImage(), lo: lo, hi: hi, cut: it.pos, kind: "prefix", desc: evDesc(e), want: -1})
-			prevWrites = nw
-		}
-		if cfg.Lossy > 0 && it.WindowSize() > 0 {
-			for k := 0; k < cfg.Lossy; k++ {
-				img, desc := it.LossyImage(rng)
-				jobs = append(jobs, imageJob{img: img, lo: lo, hi: hi, cut: it.pos, kind: "lossy", desc: "blocks addr:choice/options " + desc, want: -1})
-				res.LossyN++
-			}
-		}
-	}
-	res.Cuts = cutNo
-	// evaluate in parallel
+	// Images are produced lazily (a materialised image is a map with one entry
+	// per block of the disk that was ever written: thousands of them at once
+	// do not fit in memory) and evaluated by a few workers; the recovery runs
+	// chosen for depth 2 are cut and evaluated by the same worker right away.
 	par := runtime.GOMAXPROCS(0)
 	if par > 4 {
 		par = 4
 	}
+	ch := make(chan imageJob, 2*par)
+	total := 0
+	go func() {
+		defer close(ch)
+		it := NewCutIter(w.size, w.base, w.trace)
+		rng := NewRng(mix(seed, uint64(cas)+555))
+		lo, hi := 0, 0
+		cutNo := 0
+		prevWrites := -1
+		nw := 0
+		idx := 0
+		send := func(j imageJob) {
+			j.idx = idx
+			idx++
+			ch <- j
+		}
+		for {
+			e, ok := it.Step()
+			if !ok {
+				break
+			}
+			switch e.Kind {
+			case EvCall:
+				hi = int(e.Addr) + 1
+			case EvRet:
+				if w.ops[e.Addr].Stable {
+					lo = int(e.Addr) + 1
+					// the instant right after a stable acknowledgement (it may have
+					// caused no disk write at all)
+					send(imageJob{img: it.PrefixImage(), lo: lo, hi: hi, cut: it.pos, kind: "prefix", desc: fmt.Sprintf("right after the stable acknowledgement of op %d", e.Addr), want: -1})
+				}
+			case EvWrite:
+				nw++
+			}
+			if e.Kind != EvWrite && e.Kind != EvBarrier {
+				continue
+			}
+			cutNo++
+			if cfg.CutStride > 1 && cutNo%cfg.CutStride != 0 {
+				continue
+			}
+			if e.Kind == EvWrite || nw != prevWrites {
+				send(imageJob{img: it.PrefixImage(), lo: lo, hi: hi, cut: it.pos, kind: "prefix", desc: evDesc(e), want: -1})
+				prevWrites = nw
+			}
+			if cfg.Lossy > 0 && it.WindowSize() > 0 {
+				for k := 0; k < cfg.Lossy; k++ {
+					img, desc := it.LossyImage(rng)
+					send(imageJob{img: img, lo: lo, hi: hi, cut: it.pos, kind: "lossy", desc: "blocks addr:choice/options " + desc, want: -1})
+				}
+			}
+		}
+		total = cutNo
+	}()
 	var mu sync.Mutex
 	var wg sync.WaitGroup
-	ch := make(chan int, len(jobs))
-	for i := range jobs {
-		ch <- i
-	}
-	close(ch)
-	var depth2 []imageJob
 	for g := 0; g < par; g++ {
 		wg.Add(1)
 		go func() {
 			defer wg.Done()
-			for i := range ch {
-				j := jobs[i]
-				j.idx = i
+			for j := range ch {
 				mu.Lock()
 				stop := len(res.Viol) >= 6
+				if j.kind == "lossy" {
+					res.LossyN++
+				}
 				mu.Unlock()
 				if stop {
-					continue
+					continue // drain
 				}
-				childLog("image %d/%d %s cut=%d", i, len(jobs), j.kind, j.cut)
-				rec := cfg.Depth2Every > 0 && i%cfg.Depth2Every == 0
+				childLog("image %d %s cut=%d", j.idx, j.kind, j.cut)
+				rec := cfg.Depth2Every > 0 && j.idx%cfg.Depth2Every == 0
 				out := w.evalImage(j, rec)
 				mu.Lock()
 				res.Images++
@@ -696,7 +702,9 @@ func runCrash(cfg CrashCfg, seed uint64, cas int) *CrashRes {
 				if out.shrinking {
 					res.MidShrink++
 				}
+				mu.Unlock()
 				if rec && len(out.viol) == 0 && out.match >= 0 {
+					// depth 2: the recovery run itself is cut again
 					it2 := NewCutIter(w.size, out.base2, out.trace2)
 					n2 := 0
 					for {
@@ -708,28 +716,30 @@ func runCrash(cfg CrashCfg, seed uint64, cas int) *CrashRes {
 							continue
 						}
 						n2++
-						if n2%maxInt(1, cfg.Depth2Stride) == 0 {
-							depth2 = append(depth2, imageJob{img: it2.PrefixImage(), lo: out.match, hi: out.match, cut: j.cut*100000 + it2.pos, kind: "depth2", desc: fmt.Sprintf("recovery of %s cut %d, itself cut after its write #%d", j.kind, j.cut, n2), want: out.match})
+						if n2%maxInt(1, cfg.Depth2Stride) != 0 {
+							continue
 						}
+						mu.Lock()
+						stop := len(res.Viol) >= 6
+						mu.Unlock()
+						if stop {
+							break
+						}
+						j2 := imageJob{img: it2.PrefixImage(), lo: out.match, hi: out.match, cut: j.cut*100000 + it2.pos, kind: "depth2", desc: fmt.Sprintf("recovery of %s cut %d, itself cut after its write #%d", j.kind, j.cut, n2), want: out.match}
+						childLog("depth2 image cut=%d", j2.cut)
+						out2 := w.evalImage(j2, false)
+						mu.Lock()
+						res.Images++
+						res.Depth2++
+						res.Viol = append(res.Viol, out2.viol...)
+						mu.Unlock()
 					}
 				}
-				mu.Unlock()
 			}
 		}()
 	}
 	wg.Wait()
-	// depth 2: repeated crash during recovery
-	sort.Slice(depth2, func(a, b int) bool { return depth2[a].cut < depth2[b].cut })
-	for _, j := range depth2 {
-		if len(res.Viol) >= 6 {
-			break
-		}
-		childLog("depth2 image cut=%d", j.cut)
-		out := w.evalImage(j, false)
-		res.Images++
-		res.Depth2++
-		res.Viol = append(res.Viol, out.viol...)
-	}
+	res.Cuts = total
 	return res
 }
 
